@@ -69,18 +69,24 @@ def run(ck):
     for k, c in enumerate(configs):
         metric = 'mse' if c['minimize'] else 'accuracy'
         c['ctor_metric'] = [None, 'mse', 'accuracy', 'auc', 'mae'][k % 5]     # None: metric given to the constructor only
+        # every fifth history with at least two rounds: the wall-clock test fires at the top of round r (scripted clock); by C03_time_limit_is_a_cut_iteration_budget the
+        # statement is then that of a fit with budget r
+        c['timeout'] = (1 + (k // 5) % (c['iters'] - 1)) if (k % 5 == 3 and c['iters'] >= 2) else None
+        budget = c['iters'] if c['timeout'] is None else c['timeout']
         o = sc.run_real_fit(xr, c['iters'], c['arg'], c['scores'], metric, c['early'], c['mult'], c['rb'],
-                            ctor_iters=c['iters'], ctor_metric=c['ctor_metric'])
+                            ctor_iters=c['iters'], ctor_metric=c['ctor_metric'], timeout_round=c['timeout'])
+        if c['timeout'] is not None:
+            ck.count('clock runs out at the top of a round')
         ck.case(dict(c, observed={a: b for a, b in o.items()}), nontrivial=len(set(c['scores'])) >= 2, sample=(k % 997 == 5))
         ck.count(f"iters={c['iters']}"); ck.count('early' if c['early'] else 'no-early'); ck.count('min' if c['minimize'] else 'max')
         if o['crashed'] is not None:
             ck.violation(f'RFM.fit crashed on a finite score history: {o["crashed"]} config {c}', dict(c, error=o['crashed']),
                          key=json.dumps(dict(site='crash')))
             continue
-        stopped = o['evals'] != c['iters'] + 1
+        stopped = o['evals'] != budget + 1
         ck.count('stopped-early' if stopped else 'ran-to-final')
         if c['rb']:
-            e_evals, e_idx = oracle(c['scores'], c['iters'], c['minimize'], c['early'], c['mult'])
+            e_evals, e_idx = oracle(c['scores'], budget, c['minimize'], c['early'], c['mult'])
             probs = []
             if o['evals'] != e_evals:
                 probs.append(f'{o["evals"]} validation evaluations, statement says {e_evals}')
@@ -91,7 +97,7 @@ def run(ck):
             for p_ in probs:
                 ck.violation(p_ + f' for {c}', dict(c, observed=o, problem=p_),
                              key=json.dumps(dict(site='selection', what=p_.split(',')[0][:40], early=c['early'], minimize=c['minimize'])))
-        cases.append((k, f"outcome_eqb ({sc.coq_frun(c['minimize'], c['mult'], c['iters'], c['arg'], c['rb'], c['early'], c['scores'])}) {sc.coq_outcome(o, stopped)}"))
+        cases.append((k, f"outcome_eqb ({sc.coq_frun(c['minimize'], c['mult'], c['iters'], c['arg'], c['rb'], c['early'], c['scores'], timeout_round=c['timeout'])}) {sc.coq_outcome(o, stopped)}"))
         meta[k] = c
     res = ck.run_bool_cases('fit', sc.FIT_HEADER, cases, shard=500)
     bad = [meta[k] for k, v in res.items() if v is not True]
